@@ -120,6 +120,16 @@ func buildFamily(family string, n int) (expr string, list []string) {
 		for i := 0; i < n; i++ {
 			expr = "(" + expr + " AND " + cyc(c14IDs, i+1) + ")"
 		}
+	case "left-nested-or":
+		expr = "MIT"
+		for i := 0; i < n; i++ {
+			expr = "(" + expr + " OR " + cyc(c14IDs, i+1) + ")"
+		}
+	case "right-nested-or":
+		expr = "MIT"
+		for i := 0; i < n; i++ {
+			expr = "(" + cyc(c14IDs, i+1) + " OR " + expr + ")"
+		}
 	case "balanced-or-and": // full binary tree, operators alternating by level; n = depth
 		var gen func(d int, leaf *int) string
 		gen = func(d int, leaf *int) string {
@@ -204,6 +214,8 @@ var c14Families = []familySpec{
 	{"alternating-nest", 2, true, 96, 8192},
 	{"alternating-nest-right", 2, true, 96, 8192},
 	{"left-nested-and", 4, false, 512, 16384},
+	{"left-nested-or", 2, true, 96, 8192},
+	{"right-nested-or", 2, true, 96, 8192},
 	{"balanced-or-and", 2, true, 7, 12},
 	{"n-by-n", 2, true, 24, 160},
 	{"long-list", 4, false, 256, 8192},
@@ -236,6 +248,8 @@ func call(entry, expr string, list []string) (panicked string) {
 		return Satisfies(expr, list).Panic
 	case "extract":
 		return Extract(expr).Panic
+	case "allowed": // the input as an allowed-list entry (a compound one is refused, but must be refused cheaply)
+		return Satisfies("MIT", append([]string{"MIT", expr}, list...)).Panic
 	default:
 		return Validate(append([]string{expr}, list...)).Panic
 	}
@@ -424,12 +438,12 @@ func firstN(s string, n int) string {
 
 func TestC14_Families(t *testing.T) {
 	cfg := Cfg()
-	rec := NewRecorder("C14", "families", fmt.Sprintf("size-parameterised input families %v x entry points {Satisfies, ExtractLicenses, ValidateLicenses}; n stepped by +25%% (product-shaped) or x2 (chains) up to the tier's limit; each call measured alone (runtime.MemStats TotalAlloc/Mallocs deltas and process CPU time, minimum of 3); oracle: local exponent of allocation over input length <= %.0f once a call allocates > 4 MB, of CPU time <= %.0f once a call takes > 0.5 s, and <= 256 MB / 10 s CPU for <= 512 bytes of arguments; escalation of a family stops at its first breach; non-trivial = n >= 8; distinct by (family, n, entry point)", familyNames(), c14MaxExponent, c14MaxCPUExp))
+	rec := NewRecorder("C14", "families", fmt.Sprintf("size-parameterised input families %v x entry points {Satisfies, ExtractLicenses, ValidateLicenses, Satisfies with the input as an allowed entry}; n stepped by +25%% (product-shaped) or x2 (chains) up to the tier's limit; each call measured alone (runtime.MemStats TotalAlloc/Mallocs deltas and process CPU time, minimum of 3); oracle: local exponent of allocation over input length <= %.0f once a call allocates > 4 MB, of CPU time <= %.0f once a call takes > 0.5 s, and <= 256 MB / 10 s CPU for <= 512 bytes of arguments; escalation of a family stops at its first breach; non-trivial = n >= 8; distinct by (family, n, entry point)", familyNames(), c14MaxExponent, c14MaxCPUExp))
 	defer rec.Finish(t)
 	stop := startWatchdog(rec, t)
 	defer stop()
 	for _, f := range c14Families {
-		for _, entry := range []string{"satisfies", "extract", "validate"} {
+		for _, entry := range []string{"satisfies", "extract", "validate", "allowed"} {
 			max := f.maxQ
 			if cfg.Thorough() {
 				max = f.maxT
@@ -504,7 +518,7 @@ func TestC14_RandomTrees(t *testing.T) {
 			return
 		}
 		list := []string{cyc(c14IDs, rapid.IntRange(0, 7).Draw(rt, "allowed"))}
-		for _, entry := range []string{"satisfies", "extract"} {
+		for _, entry := range []string{"satisfies", "extract", "allowed"} {
 			c := CostCase{Family: "random-tree", Entry: entry, Expr: expr, List: list}
 			c14Current.Store(&c)
 			out := checkC14Absolute(c)
@@ -703,7 +717,7 @@ func TestC14_GeneratedFamilies(t *testing.T) {
 		for i, n := 0, rapid.IntRange(1, 3).Draw(rt, "listLen"); i < n; i++ {
 			sc.List = append(sc.List, rapid.SampledFrom(append(append([]string{}, c14IDs...), "Apache-2.0", "GPL-2.0-only")).Draw(rt, fmt.Sprintf("a%d", i)))
 		}
-		for _, entry := range []string{"satisfies", "extract"} {
+		for _, entry := range []string{"satisfies", "extract", "allowed"} {
 			c := CostCase{Family: "generated", Entry: entry, N2: limit, Schema: sc}
 			c14Current.Store(&c)
 			out := checkC14Schema(c)
